@@ -527,4 +527,135 @@ def inodeLoop (inodes : Meta → Nat) (toFree : Nat) : Nat → List Meta → Lis
     else if marked + inodes m ≤ toFree then m :: inodeLoop inodes toFree (marked + inodes m) r
     else inodeLoop inodes toFree marked r
 
+
+/-! ### metricmeta.json: a retention pass against rotations (interleaving machine)
+
+Mirrors pkg/segment/writer/metrics/meta/metricsmeta.go as it is: `RemoveMetricsSegments` takes `mMetaLock`
+(write lock, released by a deferred Unlock when it returns) and calls `removeMetricsSegmentsByList`: open + scan the
+file into `preservedEntries` / `removedSegmentDirs`, remove the directory of every removed entry, rewrite the file from
+`preservedEntries` (only when an entry was removed; tmp + rename).  `AddMetricsMetaEntry` (the rotation of a metrics
+segment): Lock, append one line, fsync, deferred Unlock.  `ReadMetricsMeta`: RLock, scan, deferred RUnlock.
+A thread's step = what runs between two pause points of the instrumented copy (harness/cmd/overlaygen/c14.go):
+pass `lock, scan, rmdir × removed entries, rewrite`; rotation `lock, write`; reader `rlock, read`.  A step that would
+wait for the lock is not taken (`Ev.blocked`).  Entries are their keys (the lines are tied byte for byte by suite retsm). -/
+namespace MmConc
+
+inductive Tid where
+  | pass
+  | app (i : Nat)
+  | rd (j : Nat)
+  deriving DecidableEq, Repr
+
+inductive PPc where
+  | lock | scan | rmdir | rewrite | done
+  deriving DecidableEq, Repr
+
+inductive TPc where
+  | lock | work | done
+  deriving DecidableEq, Repr
+
+inductive Ev where
+  | exec (label : String)
+  | blocked
+  | noop
+  deriving DecidableEq, Repr
+
+structure St where
+  file : List Nat
+  dirs : List Nat
+  writer : Option Tid := none
+  readers : List Nat := []
+  ppc : PPc := .lock
+  preserved : List Nat := []
+  removed : List Nat := []
+  todo : List Nat := []
+  apc : Nat → TPc := fun _ => .lock
+  rpc : Nat → TPc := fun _ => .lock
+  rres : Nat → Option (List Nat) := fun _ => none
+
+def upd {α : Type} (f : Nat → α) (i : Nat) (v : α) : Nat → α := fun j => if j = i then v else f j
+
+/-- one step of thread `t`; `victim` = membership in metricsSegmentsToDelete, `key i` = the entry rotation `i` appends -/
+def step (victim : Nat → Bool) (key : Nat → Nat) (s : St) : Tid → St × Ev
+  | .pass =>
+    match s.ppc with
+    | .lock =>
+      if s.writer.isNone && s.readers.isEmpty then ({ s with writer := some .pass, ppc := .scan }, .exec "lock")
+      else (s, .blocked)
+    | .scan =>
+      let rm := s.file.filter victim
+      ({ s with preserved := s.file.filter (fun k => !victim k), removed := rm, todo := rm,
+                ppc := if rm.isEmpty then .rewrite else .rmdir }, .exec "scan")
+    | .rmdir =>
+      match s.todo with
+      | [] => ({ s with ppc := .rewrite }, .noop)
+      | d :: r => ({ s with dirs := s.dirs.filter (· ≠ d), todo := r, ppc := if r.isEmpty then .rewrite else .rmdir }, .exec "rmdir")
+    | .rewrite =>
+      ({ s with file := if s.removed.isEmpty then s.file else s.preserved,
+                writer := if s.writer = some .pass then none else s.writer, ppc := .done }, .exec "rewrite")
+    | .done => (s, .noop)
+  | .app i =>
+    match s.apc i with
+    | .lock =>
+      if s.writer.isNone && s.readers.isEmpty then ({ s with writer := some (.app i), apc := upd s.apc i .work }, .exec "lock")
+      else (s, .blocked)
+    | .work =>
+      ({ s with file := s.file ++ [key i], writer := if s.writer = some (.app i) then none else s.writer,
+                apc := upd s.apc i .done }, .exec "write")
+    | .done => (s, .noop)
+  | .rd j =>
+    match s.rpc j with
+    | .lock =>
+      if s.writer.isNone then ({ s with readers := j :: s.readers, rpc := upd s.rpc j .work }, .exec "rlock")
+      else (s, .blocked)
+    | .work =>
+      ({ s with rres := upd s.rres j (some s.file), readers := s.readers.filter (· ≠ j), rpc := upd s.rpc j .done }, .exec "read")
+    | .done => (s, .noop)
+
+def run (victim : Nat → Bool) (key : Nat → Nat) (s : St) (sched : List Tid) : St :=
+  sched.foldl (fun s t => (step victim key s t).1) s
+
+/-- rotation `i` has returned (its entry is acknowledged) -/
+def acked (s : St) (i : Nat) : Bool := s.apc i == .done
+
+end MmConc
+
+/-! ### the directory of a segment from its key (`utils.GetSegBaseDirFromFilename`, pkg/utils/segutils.go)
+
+`pos := strings.Index(filename, "/final/")` (the FIRST occurrence), error when there is none; then three more path
+components, each ended by its "/" (error when there are fewer); result `filename[:pos]`.  Coupled to
+`config.GetBaseSegDir`: `<data path><host id>/final/<index>/<stream id>/<suffix>/`, the segment key repeats the suffix. -/
+namespace SegDir
+
+/-- index of the first occurrence of `pat` (strings.Index) -/
+def findSub (pat : List Char) : List Char → Option Nat
+  | [] => if pat.isEmpty then some 0 else none
+  | c :: r => if pat.isPrefixOf (c :: r) then some 0 else (findSub pat r).map (· + 1)
+
+/-- the prefix of the string up to and including its `k`-th "/" -/
+def takeParts : Nat → List Char → Option (List Char)
+  | 0, _ => some []
+  | _ + 1, [] => none
+  | k + 1, c :: r => if c = '/' then (takeParts k r).map (c :: ·) else (takeParts (k + 1) r).map (c :: ·)
+
+def finalStr : List Char := "/final/".toList
+
+def depthAfterFinal : Nat := 3
+
+def segBaseDir (s : List Char) : Option (List Char) :=
+  match findSub finalStr s with
+  | none => none
+  | some p =>
+    let q := p + finalStr.length
+    (takeParts depthAfterFinal (s.drop q)).map (s.take q ++ ·)
+
+/-- `config.GetSegKey`: `pre` = data path + host id -/
+def segKey (pre index stream suffix : List Char) : List Char :=
+  pre ++ finalStr ++ index ++ ['/'] ++ stream ++ ['/'] ++ suffix ++ ['/'] ++ suffix
+
+def baseSegDir (pre index stream suffix : List Char) : List Char :=
+  pre ++ finalStr ++ index ++ ['/'] ++ stream ++ ['/'] ++ suffix ++ ['/']
+
+end SegDir
+
 end SigModel.Retention
